@@ -648,15 +648,17 @@ class FuncLowerer:
             self.loop_ord += 1
             lc = self.loop_contract()
             self.loop_guard_raii()
+            rb = self.take_rebase()
             out = [pad + 'while (%s)' % self.cond(inner[0])] + lc
-            out += self.stmt_block(inner[1], ind)
+            out += self.rebased(self.stmt_block(inner[1], ind), rb)
             return out
         if k == 'DoStmt':
             inner = s.get('inner', [])
             self.loop_ord += 1
             lc = self.loop_contract()
+            rb = self.take_rebase()
             out = [pad + 'do'] + lc
-            out += self.stmt_block(inner[0], ind)
+            out += self.rebased(self.stmt_block(inner[0], ind), rb)
             out.append(pad + 'while (%s);' % self.cond(inner[1]))
             return out
         if k == 'ForStmt':
@@ -675,8 +677,9 @@ class FuncLowerer:
             c = self.cond(cond) if cond and cond.get('kind') else '1'
             i = self.expr(inc) if inc and inc.get('kind') else ''
             out.append('%s  for (; %s; %s)' % (pad, c, i))
+            rb = self.take_rebase()
             out += lc
-            out += self.stmt_block(body, ind + 1)
+            out += self.rebased(self.stmt_block(body, ind + 1), rb)
             out.append(pad + '}')
             return out
         if k == 'BreakStmt':
@@ -760,11 +763,36 @@ class FuncLowerer:
 
     def loop_contract(self):
         t = self.u.cfg.loop_contracts.get((self.cname, self.loop_ord))
+        self._rebase = []
         if t is None:
             return []
         self.u.cfg.loop_contracts_used = getattr(self.u.cfg, 'loop_contracts_used', set())
         self.u.cfg.loop_contracts_used.add((self.cname, self.loop_ord))
-        return ['    ' + x for x in t.strip().split('\n')]
+        lines = []
+        self._rebase = []
+        for x in t.strip().split('\n'):
+            m = re.match(r'\s*VF_REBASE\((.+?),\s*(.+)\)\s*$', x)
+            if m:
+                # verification-only identity on a loop-modified pointer: p = base + (p - base).  The loop invariant must state
+                # same_object(p, base); the statement changes no value, it only gives cbmc's dereferencing the object back after
+                # the loop-contract instrumentation has havoced p (a havoced pointer dereferences to an unconstrained object).
+                self._rebase.append('%s = (%s) + ((%s) - (%s)); /* VF_REBASE: identity, see DESIGN */' % (m.group(1), m.group(2), m.group(1), m.group(2)))
+            else:
+                lines.append('    ' + x)
+        return lines
+
+    def take_rebase(self):
+        rb = getattr(self, '_rebase', [])
+        self._rebase = []
+        return rb
+
+    def rebased(self, block, rb):
+        if not rb:
+            return block
+        if not block or block[0].strip() != '{':
+            raise Abort('VF_REBASE needs a compound loop body')
+        ind = block[0][:len(block[0]) - len(block[0].lstrip())]
+        return [block[0]] + [ind + '  ' + x for x in rb] + block[1:]
 
     def is_log_stmt(self, s):
         """BABYLON_LOG(...) << ...; expands to a conditional / for construct around a LogStream"""
